@@ -12,7 +12,7 @@ RULE = (
     "cases: convex faces with 3..8 corners (inscribed in small circles of radius 0.5..60 deg with jittered corners; Voronoi / "
     "merged-Delaunay / cubed-sphere / lat-lon-patch cells) placed generically, with a pole strictly inside (off-centre), with "
     "a corner exactly at a pole (stored with any longitude), a pole inside and a corner exactly on lon=0 / lon=180, across lon=180, across lon=0, containing (lon 0, lat 0), just beside a pole, on the equator; "
-    "every start corner, both traversal orientations; as single-face grids and as whole meshes. Oracle: analytic great-circle "
+    "every start corner, both traversal orientations; as single-face grids and as whole meshes; given as lon/lat topology or (one in three, and one of the two single-face grids) as Cartesian-only face vertices whose lon/lat the library derives. Oracle: analytic great-circle "
     "apex per edge (inside-arc decided by sign tests) cross-checked against 64 slerp samples per edge; shortest circular cover of "
     "the boundary longitudes; pole enclosure by edge-plane signs with a 1e-6 rad margin (cases inside the margin are dropped). "
     "Faces whose longitude extent is within 5 deg of 180 (and do not enclose a pole) are dropped. Non-trivial = special "
@@ -182,10 +182,17 @@ def face_sig(want, k, placement):
             "contains_origin": want["contains_origin"], "bulge": want["bulge"], "orientation": want["orientation"], "placement": placement}
 
 
-def grid_of(rings_xyz, pole_lon=None):
+def grid_of(rings_xyz, pole_lon=None, cartesian=False):
     """rings: list of (k,3) arrays with their own nodes -> Grid via explicit topology (lon/lat input).
     pole_lon: longitude (deg) to store for corners exactly at a pole (a pole has no longitude: any value is legal input)."""
     U = ux.ux()
+    if cartesian:
+        # a Cartesian-only source (face-vertex constructor): the library derives the corners' lon/lat itself
+        w = max(len(R) for R in rings_xyz)
+        fv = np.full((len(rings_xyz), w, 3), float(ux.INT_FILL))
+        for i, R in enumerate(rings_xyz):
+            fv[i, : len(R)] = R
+        return U.Grid.from_face_vertices(fv, latlon=False)
     pts, faces = [], []
     for R in rings_xyz:
         base = len(pts)
@@ -227,6 +234,11 @@ def run_case(ctx, case):
             variants.append(("cw", s, np.roll(P[::-1], -s, axis=0)))
         rings, wants, tags = [], [], []
         for orient, s, R in variants:
+            if np.any((np.abs(R[:, 2]) > 1 - 1.01e-8) & (np.abs(R[:, 2]) < 1.0)):
+                # a corner inside the library's pole-snapping band (within 1.42e-4 rad of a pole, not at it): a Cartesian-only source
+                # has it reported AT the pole (sanctioned by C04) - the grid then describes another polygon
+                ctx.observe("dropped_corner_in_pole_snap_band")
+                continue
             w = true_bounds(R)
             if w is None:
                 ctx.observe("dropped_margin_or_domain")
@@ -239,13 +251,15 @@ def run_case(ctx, case):
         detail0 = {"case": {k_: case[k_] for k_ in ("k", "radius", "fseed", "placement", "pseed")}}
         # one grid per variant (single-face grids) - and all variants together as one multi-face grid
         pole_lon = [None, -94.57186012, 137.5, 359.0 - 360.0][case["pseed"] % 4] if case["placement"].startswith("corner_") else None
-        gall = grid_of(rings, pole_lon)
+        cart = case["pseed"] % 3 == 0
+        ctx.observe("source_cartesian_only" if cart else "source_lonlat")
+        gall = grid_of(rings, pole_lon, cart)
         ball = get_bounds(ctx, gall, {"placement": case["placement"], "stage": "multi"}, detail0)
         for i, (R, w, tag) in enumerate(zip(rings, wants, tags)):
             sig = face_sig(w, k, case["placement"])
             det = dict(detail0, start=tag[1], want={k_: w[k_] for k_ in ("lat_min", "lat_max", "lon_lo", "lon_hi", "lon_width", "pole")}, ring_lonlat=np.array(ref.xyz_to_lonlat(R)).T.tolist())
             if i < 2:
-                g1 = grid_of([R], pole_lon)
+                g1 = grid_of([R], pole_lon, cart if i == 0 else not cart)
                 b1 = get_bounds(ctx, g1, dict(sig, stage="single"), det)
                 if b1 is not None:
                     judge(ctx, b1[0], w, dict(sig, grid="single"), dict(det, got=b1[0].tolist()))
@@ -263,13 +277,20 @@ def run_case(ctx, case):
                     "variants": len(rings)}, limit=3)
         return
     m = gen.build(case["mesh"])
-    g = ux.grid_from_mesh(m)
+    if len(str(case["mesh"])) % 3 == 0 and not np.any((np.abs(m.xyz[:, 2]) > 1 - 1.01e-8) & (np.abs(m.xyz[:, 2]) < 1.0)):
+        g = grid_of([m.ring_pos(fi) for fi in range(m.n_face)], None, True)
+        ctx.observe("source_cartesian_only")
+    else:
+        g = ux.grid_from_mesh(m)
     b = get_bounds(ctx, g, {"stage": "mesh"}, {"mesh": case["mesh"]})
     if b is None:
         return
     for fi in range(m.n_face):
         R = m.ring_pos(fi)
         if not (3 <= len(R) <= 8):
+            continue
+        if np.any((np.abs(R[:, 2]) > 1 - 1.01e-8) & (np.abs(R[:, 2]) < 1.0)):
+            ctx.observe("dropped_corner_in_pole_snap_band")
             continue
         w = true_bounds(R)
         if w is None:
